@@ -38,8 +38,17 @@ pub fn check_history(n: usize, shape: &Shape, stream: &[u8], cuts: &[usize], use
             return Err(fail("overflow", format!("call {}: {} bytes buffered in a capacity-{} accumulator", si, st.buffered.len(), n), cj()));
         }
         let consumed = st.len - st.rem_len;
-        if stream[pos..pos + consumed].contains(&0) && !st.buffered.is_empty() {
-            return Err(fail("overflow", format!("call {}: consumed a zero byte but the buffer still holds {}", si, hex(&st.buffered)), cj()));
+        // back in the initial state after every zero byte: what is buffered after a call that passed a zero can only be
+        // what it consumed behind the last zero (an implementation may carry on behind a dropped segment in the same call)
+        if let Some(z) = stream[pos..pos + consumed].iter().rposition(|b| *b == 0) {
+            let after = &stream[pos + z + 1..pos + consumed];
+            if !st.buffered.is_empty() && st.buffered != after {
+                return Err(fail(
+                    "overflow",
+                    format!("call {}: consumed a zero byte (followed by {}) but the buffer holds {}", si, hex(after), hex(&st.buffered)),
+                    cj(),
+                ));
+            }
         }
         if st.kind == Kind::Consumed && consumed != st.len {
             return Err(fail("overflow", format!("call {}: Consumed but a remainder exists", si), cj()));
@@ -154,8 +163,7 @@ pub fn run(ctx: &Ctx) {
     ctx.set_rule(
         "cases: as C08 without the fits-the-capacity restriction: over-long segments (N-1, N, N+1, N+2, 2N, 5N, 250-600 bytes), \
          garbage, random bytes, frames of length exactly N-1/N/N+1; capacities {1..6,8,13,16,32,64,256}; all chunkings of short \
-         streams, all cut pairs, random chunkings. oracle (invariants over the history): no panic, buffered <= N, buffer empty after \
-         every call that consumed a zero byte, returned slice is a suffix of its input, an OverFull for every over-long segment no \
+         streams, all cut pairs, random chunkings. oracle (invariants over the history): no panic, buffered <= N, after a call that consumed a zero byte the buffer holds nothing but what was consumed behind the last zero, returned slice is a suffix of its input, an OverFull for every over-long segment no \
          later than the call consuming its sentinel, every well-formed fitting frame that starts after a zero byte is delivered as \
          Success with its value, feed loop terminates within 2*len+2 iterations. non-trivial = history with an over-long segment \
          followed by a delivered frame; distinct = hash(capacity, type, stream, cuts)",
